@@ -17,5 +17,7 @@ Record site_row := mk_site {
   s_file : string;
   s_func : string;     (* enclosing function, Recv.Name for methods *)
   s_kind : site_kind;
-  s_count : Z          (* occurrences of this kind in this function *)
+  s_count : Z;         (* occurrences of this kind in this function *)
+  s_detail : string    (* floatfmt: the format string literal; float: "inmaprange" once per occurrence that lies
+                          inside the body of a range over a map; "" otherwise *)
 }.
